@@ -1,22 +1,19 @@
 import JediModel.Lemmas.Validate
-import JediModel.Gen.C01
+import JediModel.Lemmas.ValidateSpec
+import JediModel.Model.ApiHelpers
 /-! C01 — the position contract of the query API: `validate_line_column`, stated over the
 constants the translator reads from `jedi/api/helpers.py` / `jedi/api/__init__.py`. -/
 namespace JediModel.Props.C01
-open JediModel.Text JediModel.Validate
+open JediModel.Text JediModel.Validate JediModel.ApiHelpers
 open JediModel.Gen
 
 /-- the wrapper as written in the working tree -/
-def spec : Spec :=
-  { defaultLineMin := C01.defaultLineMin, lineLo := C01.lineLo, lineLoStrict := C01.lineLoStrict,
-    lineHiStrict := C01.lineHiStrict, indexOffset := C01.indexOffset, strip := C01.strip,
-    colLo := C01.colLo, colLoStrict := C01.colLoStrict, colHiStrict := C01.colHiStrict,
-    lineErr := C01.lineErr, colErr := C01.colErr }
+abbrev spec : Spec := sourceSpec
 
 /-- the translator output has the shape the lemmas are proved for (a changed operator, bound,
 default, `endswith` entry or exception class makes this — and so every theorem below — fail) -/
 theorem spec_shape : StdShape spec := by
-  unfold StdShape spec stdStrip; decide
+  exact ⟨rfl, rfl, rfl, rfl, rfl, rfl, rfl, rfl, rfl, rfl, rfl⟩
 
 /-- the `endswith` chain found in the source computes exactly "length without one trailing
 `\r\n` or `\n`" (`Model/Text.lineLen`). -/
@@ -133,18 +130,131 @@ theorem position_methods_guarded :
     ∀ m ∈ C01.positionMethods,
       m.2.1 = true ∨ (m.2.2.1 = 0 ∧ m.2.2.2 ≠ [] ∧
         ∀ t ∈ m.2.2.2, ∃ m' ∈ C01.positionMethods, m'.1 = t ∧ m'.2.1 = true) := by
-  decide
+  decide +kernel
 
 /-- the query methods of the property statement that take a position are in that table -/
 theorem query_methods_in_table :
     ∀ n ∈ ["complete", "infer", "goto", "help", "get_references", "get_signatures", "get_context"],
       ∃ m ∈ C01.positionMethods, m.1 = n ∧ m.2.1 = true := by
-  decide
+  decide +kernel
+
+/-! ### pure helpers under the query methods -/
+
+/-- `get_on_completion_name` (regex branch): the match is a suffix of `line[:col]` -/
+theorem searchName_suffix (w d : Char → Bool) (s : Str) : ∃ pre, s = pre ++ searchName w d s := by
+  induction s with
+  | nil => exact ⟨[], rfl⟩
+  | cons c rest ih =>
+    unfold searchName
+    split
+    · exact ⟨[], rfl⟩
+    · obtain ⟨pre, hp⟩ := ih
+      exact ⟨c :: pre, by rw [List.cons_append, ← hp]⟩
+
+/-- … it consists of word characters only and does not begin with a digit -/
+theorem searchName_valid (w d : Char → Bool) (s : Str) :
+    (searchName w d s).all w = true ∧ (∀ c rest, searchName w d s = c :: rest → d c = false) := by
+  induction s with
+  | nil => simp [searchName]
+  | cons c rest ih =>
+    unfold searchName
+    split
+    · next h =>
+      simp only [Bool.and_eq_true, Bool.not_eq_eq_eq_not, Bool.not_true] at h
+      refine ⟨h.2, ?_⟩
+      intro c' rest' he
+      cases he
+      exact h.1
+    · exact ih
+
+/-- … and it is the longest such suffix (the regex search is leftmost) -/
+theorem searchName_longest (w d : Char → Bool) (s pre r : Str) (c : Char) (rest : Str)
+    (hs : s = pre ++ r) (hr : r = c :: rest) (hw : r.all w = true) (hd : d c = false) :
+    r.length ≤ (searchName w d s).length := by
+  induction s generalizing pre with
+  | nil =>
+    subst hr
+    cases pre <;> simp at hs
+  | cons x xs ih =>
+    unfold searchName
+    split
+    · have := congrArg List.length hs
+      simp at this ⊢
+      omega
+    · next hn =>
+      cases pre with
+      | nil =>
+        simp only [List.nil_append] at hs
+        subst hr
+        cases hs
+        simp only [Bool.and_eq_true, Bool.not_eq_eq_eq_not, Bool.not_true, not_and] at hn
+        exact absurd hw (by simpa using hn hd)
+      | cons p pre =>
+        simp only [List.cons_append, List.cons.injEq] at hs
+        exact ih pre hs.2
+
+/-- the helper's own `lines[position[0] - 1]` cannot raise at a validated position -/
+theorem onCompletionName_total (w d : Char → Bool) (ls : List Str) (line col : Option Int) (l c : Int)
+    (h : validate spec ls line col = .ok l c) :
+    ∃ s, onCompletionName w d ls l c = .ok s := by
+  obtain ⟨str, _, hidx, _⟩ := validate_then_index_safe ls line col l c h
+  exact ⟨searchName w d (pySliceTo str c), by simp [onCompletionName, hidx]⟩
+
+/-- `_get_code` cannot raise (`lines[-1]` / `lines[0]` of an empty slice) when the start line
+exists and is not after the end line -/
+theorem getCode_total (ls : List Str) (sl sc el ec : Int) (h1 : 1 ≤ sl) (h2 : sl ≤ el) (h3 : sl ≤ ls.length) :
+    ∃ s, getCode ls sl sc el ec = .ok s := by
+  unfold getCode
+  have hlen : 0 < (pySlice ls (sl - 1) el).length := by
+    unfold pySlice clampIdx
+    have a1 : ¬ (sl - 1 < 0) := by omega
+    have a2 : ¬ (el < 0) := by omega
+    simp only [a1, a2, if_false, List.length_drop, List.length_take]
+    omega
+  have hne : pySlice ls (sl - 1) el ≠ [] := List.length_pos_iff.mp hlen
+  simp only
+  rw [List.getLast?_eq_some_getLast hne]
+  simp only
+  generalize hx : (pySlice ls (sl - 1) el).dropLast ++ [pySliceTo ((pySlice ls (sl - 1) el).getLast hne) ec] = lines1
+  cases lines1 with
+  | nil => simp at hx
+  | cons a t => exact ⟨_, rfl⟩
+
+/-- `cut_value_at_position` has no failing path at all (it is a total function in the model) and
+always returns a prefix of the leaf's value -/
+theorem cutValue_prefix (value : Str) (ll lc pl pc : Int) : cutValue value ll lc pl pc <+: value := by
+  unfold cutValue
+  simp only
+  generalize hls : pySliceTo (splitLines value) (pl - ll + 1) = lines
+  have hpre : lines <+: splitLines value := by
+    rw [← hls]; unfold pySliceTo; exact List.take_prefix _ _
+  cases hl : lines.getLast? with
+  | none => exact List.nil_prefix
+  | some last =>
+    simp only
+    have hne : lines ≠ [] := by
+      intro h0; simp [h0] at hl
+    have hdl : lines = lines.dropLast ++ [last] := by
+      have := List.dropLast_concat_getLast hne
+      rw [List.getLast?_eq_some_getLast hne] at hl
+      cases hl
+      exact this.symm
+    have h1 : (lines.dropLast ++ [pySliceTo last (if ll = pl then pc - lc else pc)]).flatten
+        <+: lines.flatten := by
+      conv => rhs; rw [hdl]
+      simp only [List.flatten_append, List.flatten_cons, List.flatten_nil, List.append_nil]
+      exact (List.prefix_append_right_inj _).mpr (List.take_prefix _ _)
+    obtain ⟨rest, hrest⟩ := hpre
+    have h2 : lines.flatten <+: value := by
+      have := join_splitLines value
+      rw [← hrest, List.flatten_append] at this
+      exact ⟨_, this⟩
+    exact h1.trans h2
 
 /-! non-vacuity -/
-example : validate spec (splitLines "ab\r\ncd".toList) (some 1) (some 2) = .ok 1 2 := by decide
-example : validate spec (splitLines "ab\r\ncd".toList) (some 1) (some 3) = .raised "ValueError" := by decide
-example : validate spec (splitLines "ab\r\ncd".toList) none none = .ok 2 2 := by decide
+example : validate spec (splitLines ['a', 'b', '\r', '\n', 'c', 'd']) (some 1) (some 2) = .ok 1 2 := by decide
+example : validate spec (splitLines ['a', 'b', '\r', '\n', 'c', 'd']) (some 1) (some 3) = .raised "ValueError" := by decide
+example : validate spec (splitLines ['a', 'b', '\r', '\n', 'c', 'd']) none none = .ok 2 2 := by decide
 example : validate spec [] none none = .raised "ValueError" := by decide
 
 end JediModel.Props.C01
